@@ -3,6 +3,7 @@ package main
 import (
 	"fmt"
 	"go/ast"
+	"go/token"
 	"go/types"
 	"sort"
 	"strings"
@@ -392,6 +393,221 @@ func c19(c *ctx) {
 		})
 	}
 	r.Analysed["raw_decoder_sites"] = nRaw
+
+	// ------------------------------------------------------------------ R5
+	c.ruleWireLengthsChecked("R5")
+
+	// ------------------------------------------------------------------ R6
+	c.ruleWalkErrorsPropagate("R6")
+}
+
+// ruleWireLengthsChecked (C19.R5): a length read from untrusted bytes (protowire.ConsumeVarint) is a uint64 the sender
+// chose. Before it is narrowed to int, used as an allocation size or as a slice bound it must have been compared, as an
+// unsigned number, against a bound, on the branch that continues: int(l) of l >= 2^63 is negative, passes every later
+// "offset+int(l) > len" test and make([]byte, l) panics.
+func (c *ctx) ruleWireLengthsChecked(R string) {
+	r := c.r
+	r.Rule(R, "DOM", "never panics on a declared length: every value protowire.ConsumeVarint returns that is narrowed to a signed integer, used as an allocation size or as a slice bound is dominated by the accepting branch of an unsigned comparison of that value with a bound", 3)
+	n := 0
+	for _, f := range c.p.Funcs {
+		if !inCanopyRaw(f) || isTestFile(c.p, f.Pos()) || isGenerated(c.p, f) {
+			continue
+		}
+		for _, b := range f.Blocks {
+			for _, in := range b.Instrs {
+				call, ok := in.(*ssa.Call)
+				if !ok {
+					continue
+				}
+				sc := call.Common().StaticCallee()
+				if sc == nil || sc.Pkg == nil || sc.Pkg.Pkg.Path() != "google.golang.org/protobuf/encoding/protowire" || sc.Name() != "ConsumeVarint" {
+					continue
+				}
+				for _, ref := range *call.Referrers() {
+					ex, ok := ref.(*ssa.Extract)
+					if !ok || ex.Index != 0 {
+						continue
+					}
+					c.wireLengthUses(R, f, ex, &n)
+				}
+			}
+		}
+	}
+	r.Analysed["wire_length_uses"] = n
+}
+
+func isGenerated(p *Prog, f *ssa.Function) bool {
+	return strings.HasSuffix(p.Fset.Position(f.Pos()).Filename, ".pb.go")
+}
+
+func (c *ctx) wireLengthUses(R string, f *ssa.Function, v ssa.Value, n *int) {
+	r := c.r
+	// the accepting successors of the unsigned comparisons of v
+	var accept []*ssa.BasicBlock
+	for _, ref := range *v.Referrers() {
+		bo, ok := ref.(*ssa.BinOp)
+		if !ok {
+			continue
+		}
+		var small bool // true: the comparison is true when v is the smaller side
+		switch {
+		case bo.X == v && (bo.Op == token.LSS || bo.Op == token.LEQ):
+			small = true
+		case bo.Y == v && (bo.Op == token.GTR || bo.Op == token.GEQ):
+			small = true
+		case bo.X == v && (bo.Op == token.GTR || bo.Op == token.GEQ):
+		case bo.Y == v && (bo.Op == token.LSS || bo.Op == token.LEQ):
+		default:
+			continue
+		}
+		other := bo.Y
+		if bo.Y == v {
+			other = bo.X
+		}
+		if k, isConst := other.(*ssa.Const); isConst && k.Value != nil && k.Uint64() == 0 {
+			continue // a test against zero bounds nothing
+		}
+		for _, cr := range *bo.Referrers() {
+			neg := false
+			var cond ssa.Instruction = cr
+			if un, ok := cr.(*ssa.UnOp); ok && un.Op == token.NOT {
+				neg = true
+				for _, r2 := range *un.Referrers() {
+					cond = r2
+				}
+			}
+			iff, ok := cond.(*ssa.If)
+			if !ok {
+				continue
+			}
+			idx := 1
+			if small != neg {
+				idx = 0
+			}
+			succ := iff.Block().Succs[idx]
+			if len(succ.Preds) == 1 {
+				accept = append(accept, succ)
+			}
+		}
+	}
+	guarded := func(b *ssa.BasicBlock) bool {
+		for _, a := range accept {
+			if a.Dominates(b) {
+				return true
+			}
+		}
+		return false
+	}
+	name := fnName(enclosing(f))
+	for _, ref := range *v.Referrers() {
+		what := ""
+		switch x := ref.(type) {
+		case *ssa.Convert:
+			if bt, ok := x.Type().Underlying().(*types.Basic); ok && bt.Info()&types.IsInteger != 0 && bt.Info()&types.IsUnsigned == 0 {
+				what = "narrowed to " + bt.Name()
+			}
+		case *ssa.MakeSlice:
+			what = "used as an allocation size"
+		case *ssa.Slice:
+			if x.Low == v || x.High == v || x.Max == v {
+				what = "used as a slice bound"
+			}
+		case *ssa.Index, *ssa.IndexAddr:
+			what = "used as an index"
+		}
+		if what == "" {
+			continue
+		}
+		*n++
+		in := ref.(ssa.Instruction)
+		r.Check(guarded(in.Block()), fmt.Sprintf("%s/%s/%s", R, name, strings.ReplaceAll(what, " ", "-")), c.p.Pos(in.Pos()), "length checked unsigned before it is "+what, fmt.Sprintf("in %s a length decoded from untrusted bytes (%s) is %s without a preceding unsigned range check: a declared length of 2^63 or more becomes negative / oversize and the decoder panics instead of rejecting the message", name, c.p.path(v), what))
+	}
+}
+
+// ruleWalkErrorsPropagate (C19.R6): the unknown-field walk is recursive; what a nested walk reports must reach the caller.
+// Decided structurally: the error result of every recursive call is used for more than a nil test: it is returned, or
+// stored where the function's result is read from. A result that is only compared with nil is dropped (the classic
+// shadowed `err :=` inside a closure).
+func (c *ctx) ruleWalkErrorsPropagate(R string) {
+	r := c.r
+	r.Rule(R, "FLOW", "unknown fields are rejected at every depth: in detectUnknownProtoFields the error of every recursive call is returned or stored into the variable the walk returns, never only tested", 3)
+	walk := c.fn("lib.detectUnknownProtoFields")
+	if walk == nil {
+		return
+	}
+	// the cells the function's result is read from
+	resultCells := map[ssa.Value]bool{}
+	for _, b := range walk.Blocks {
+		if ret, ok := b.Instrs[len(b.Instrs)-1].(*ssa.Return); ok {
+			for _, res := range ret.Results {
+				var visit func(v ssa.Value, d int)
+				visit = func(v ssa.Value, d int) {
+					if d > 6 {
+						return
+					}
+					switch x := v.(type) {
+					case *ssa.UnOp:
+						if x.Op == token.MUL {
+							resultCells[x.X] = true
+						}
+					case *ssa.Phi:
+						for _, e := range x.Edges {
+							visit(e, d+1)
+						}
+					case *ssa.MakeInterface:
+						visit(x.X, d+1)
+					case *ssa.ChangeInterface:
+						visit(x.X, d+1)
+					}
+				}
+				visit(res, 0)
+			}
+		}
+	}
+	n := 0
+	for _, g := range bodyFuncs(walk, true) {
+		instrs(g, func(in ssa.Instruction) {
+			call, ok := in.(*ssa.Call)
+			if !ok || !callIs(call.Common(), walk) {
+				return
+			}
+			n++
+			kept := false
+			var uses func(v ssa.Value, d int)
+			uses = func(v ssa.Value, d int) {
+				if d > 6 || v.Referrers() == nil {
+					return
+				}
+				for _, ref := range *v.Referrers() {
+					switch x := ref.(type) {
+					case *ssa.Return:
+						if g == walk {
+							kept = true
+						}
+					case *ssa.Store:
+						if x.Val == v {
+							if resultCells[bindingOf(x.Addr)] {
+								kept = true
+							}
+						}
+					case *ssa.Phi:
+						uses(x, d+1)
+					case *ssa.MakeInterface:
+						uses(x, d+1)
+					case *ssa.ChangeInterface:
+						uses(x, d+1)
+					case *ssa.Call:
+						// wrapped into another error (fmt.Errorf("…: %w", err)): what becomes of the wrapper counts
+						uses(x, d+1)
+					case *ssa.Slice, *ssa.IndexAddr:
+					}
+				}
+			}
+			uses(call, 0)
+			r.Check(kept, fmt.Sprintf("%s/recursive-call#%d", R, n), c.p.Pos(call.Pos()), "nested result returned or stored into the walk's result", "detectUnknownProtoFields tests the result of its recursive call but does not return it or store it into the variable the walk returns: an unknown field below this level stops the walk and is accepted")
+		})
+	}
+	r.Analysed["recursive_walk_calls"] = n
 }
 
 func isByte(t types.Type) bool {
@@ -416,4 +632,38 @@ func joinerShaped(p string) bool {
 		return true
 	}
 	return false
+}
+
+// bindingOf follows a closure's free variable to the variable of the enclosing function it is bound to.
+func bindingOf(addr ssa.Value) ssa.Value {
+	for i := 0; i < 4; i++ {
+		fv, ok := addr.(*ssa.FreeVar)
+		if !ok {
+			return addr
+		}
+		fn := fv.Parent()
+		outer := fn.Parent()
+		if outer == nil {
+			return addr
+		}
+		idx := -1
+		for j, v := range fn.FreeVars {
+			if v == fv {
+				idx = j
+			}
+		}
+		var b ssa.Value
+		for _, blk := range outer.Blocks {
+			for _, in := range blk.Instrs {
+				if mc, ok := in.(*ssa.MakeClosure); ok && mc.Fn == fn && idx >= 0 && idx < len(mc.Bindings) {
+					b = mc.Bindings[idx]
+				}
+			}
+		}
+		if b == nil {
+			return addr
+		}
+		addr = b
+	}
+	return addr
 }
